@@ -900,7 +900,8 @@ hwloc__xml_import_object(hwloc_topology_t topology,
     obj->complete_cpuset = hwloc_bitmap_dup(obj->cpuset);
   if (obj->nodeset && !obj->complete_nodeset)
     obj->complete_nodeset = hwloc_bitmap_dup(obj->nodeset);
-  if ((obj->cpuset || obj->nodeset) && hwloc__obj_type_is_special(obj->type)) {
+  if ((obj->cpuset || obj->nodeset || obj->complete_cpuset || obj->complete_nodeset)
+      && hwloc__obj_type_is_special(obj->type)) {
     if (hwloc__xml_verbose())
       fprintf(stderr, "%s: invalid special object %s with cpuset or nodeset\n",
 	      state->global->msgprefix, hwloc_obj_type_string(obj->type));
